@@ -217,7 +217,7 @@ def main(ctx):
             continue
         c0 = bc["config"]
         tols = [-1, 0, 1e-3, 1e-1, 1e10]
-        mins = sorted({1, nk[0], nk[0] + 1, nk[min(2, len(nk) - 1)]})
+        mins = sorted({0, 1, nk[0], nk[0] + 1, nk[min(2, len(nk) - 1)]})
         maxs = [None] + sorted({0, nk[0] - 1, nk[0], nk[min(1, len(nk) - 1)], nk[min(3, len(nk) - 1)]})
         for tol, mn, mx in itertools.product(tols, mins, maxs):
             if tol <= 0 and mx is None:
@@ -258,7 +258,7 @@ def main(ctx):
                   "two_phase_cases": ncont}
     return ctx.finish(
         rule="one case = one complete adaptive run on the real loop with the library's own estimator; the lattice is strategy x "
-             "integrand x norm x tol{-1,0,1e-3,1e-1,1e10} x min_evaluations{1,n0,n0+1,n2} x max_evaluations{None,0,n0-1,n0,n1,n3} "
+             "integrand x norm x tol{-1,0,1e-3,1e-1,1e10} x min_evaluations{0,1,n0,n0+1,n2} x max_evaluations{None,0,n0-1,n0,n1,n3} "
              "with n_k the point counts of the unlimited baseline (every boundary case incl. limits met at the first evaluation); "
              "distinct = distinct limit configuration; non-trivial = run with at least one refinement",
         assumptions=["d=2, lmin/lmax = (1,2) (cell: (2,2)); reference solutions from the library's analytic integrals (checked by C12)",
